@@ -383,10 +383,6 @@ class simp_full(Conv):
                 rewr_conv('int_mul_1_l', sym=True))
 
 class int_norm_conv(Conv):
-    def eval(self, t):
-        norm_t = from_poly(convert_to_poly(t))
-        return Thm(Eq(t, norm_t))
-
     def get_proof_term(self, t):
         return refl(t).on_rhs(
             simp_full(),
